@@ -187,87 +187,128 @@ func (c *Ctx) guards(fn *ssa.Function) map[*ssa.BasicBlock][]clause {
 			if _, dead := fi.dead[p]; dead {
 				continue
 			}
-			fs := append([]clause(nil), fi.facts[p]...)
-			if iff, ok := p.Instrs[len(p.Instrs)-1].(*ssa.If); ok && p.Succs[0] != p.Succs[1] {
-				v, pol := peelNot(iff.Cond, p.Succs[0] == b)
-				fs = append(fs, clause{{v, pol}})
-			}
-			sets = append(sets, fs)
+			sets = append(sets, c.edgeFacts(fi, p, b))
 		}
-		if len(sets) == 0 {
-			fi.facts[b] = nil
-			continue
-		}
-		if len(sets) == 1 {
-			fi.facts[b] = sets[0]
-			continue
-		}
-		// common clauses
-		count := map[string]int{}
-		byKey := map[string]clause{}
-		for _, fs := range sets {
-			local := map[string]bool{}
-			for _, cl := range fs {
-				k := clauseKey(cl)
-				if !local[k] {
-					local[k] = true
-					count[k]++
-					byKey[k] = cl
-				}
-			}
-		}
-		var res []clause
-		var resKeys = map[string]bool{}
-		for k, n := range count {
-			if n == len(sets) {
-				res = append(res, byKey[k])
-				resKeys[k] = true
-			}
-		}
-		// cross products of the distinguishing clauses (bounded)
-		var prod []clause = []clause{nil}
-		ok := true
-		for _, fs := range sets {
-			var dist []clause
-			for _, cl := range fs {
-				if count[clauseKey(cl)] != len(sets) {
-					dist = append(dist, cl)
-				}
-			}
-			if len(dist) == 0 {
-				ok = false // this predecessor adds nothing beyond the common part: no disjunction holds
-				break
-			}
-			var next []clause
-			for _, pcl := range prod {
-				for _, d := range dist {
-					n := append(append(clause(nil), pcl...), d...)
-					next = append(next, n)
-				}
-			}
-			if len(next) > 64 {
-				next = next[:64]
-			}
-			prod = next
-		}
-		if ok {
-			for _, cl := range prod {
-				cl = dedupClause(cl)
-				if tautology(cl) || len(cl) > 6 {
-					continue
-				}
-				k := clauseKey(cl)
-				if !resKeys[k] {
-					resKeys[k] = true
-					res = append(res, cl)
-				}
-			}
-		}
+		res := mergeClauseSets(sets)
 		sort.Slice(res, func(i, j int) bool { return clauseKey(res[i]) < clauseKey(res[j]) })
 		fi.facts[b] = res
 	}
 	fi.factDone = true
 	return fi.facts
+}
+
+// edgeFacts: facts holding when control passes along p -> b.
+func (c *Ctx) edgeFacts(fi *fnInfo, p, b *ssa.BasicBlock) []clause {
+	fs := append([]clause(nil), fi.facts[p]...)
+	if iff, ok := p.Instrs[len(p.Instrs)-1].(*ssa.If); ok && p.Succs[0] != p.Succs[1] {
+		v, pol := peelNot(iff.Cond, p.Succs[0] == b)
+		fs = append(fs, c.litFacts(fi, v, pol, 0)...)
+	}
+	return fs
+}
+
+// litFacts: clauses implied by "v has truth value pol". A boolean φ (the value form of
+// && / ||, e.g. in `switch { case a || b: }`) is expanded over its incoming edges.
+func (c *Ctx) litFacts(fi *fnInfo, v ssa.Value, pol bool, depth int) []clause {
+	v, pol = peelNot(v, pol)
+	out := []clause{{{v, pol}}}
+	phi, ok := v.(*ssa.Phi)
+	if !ok || depth > 4 {
+		return out
+	}
+	pb := phi.Block()
+	var sets [][]clause
+	for i, e := range phi.Edges {
+		pred := pb.Preds[i]
+		if isBackEdge(pred, pb) {
+			return out
+		}
+		if k, isC := constBool(e); isC {
+			if k != pol {
+				continue // this edge cannot produce the value
+			}
+			sets = append(sets, c.edgeFacts(fi, pred, pb))
+			continue
+		}
+		fs := c.edgeFacts(fi, pred, pb)
+		fs = append(fs, c.litFacts(fi, e, pol, depth+1)...)
+		sets = append(sets, fs)
+	}
+	if len(sets) == 0 {
+		return out
+	}
+	return append(out, mergeClauseSets(sets)...)
+}
+
+// mergeClauseSets: facts holding when one of several alternatives holds: the common
+// clauses plus pairwise disjunctions of the distinguishing ones (bounded).
+func mergeClauseSets(sets [][]clause) []clause {
+	if len(sets) == 0 {
+		return nil
+	}
+	if len(sets) == 1 {
+		return sets[0]
+	}
+	count := map[string]int{}
+	byKey := map[string]clause{}
+	for _, fs := range sets {
+		local := map[string]bool{}
+		for _, cl := range fs {
+			k := clauseKey(cl)
+			if !local[k] {
+				local[k] = true
+				count[k]++
+				byKey[k] = cl
+			}
+		}
+	}
+	var res []clause
+	resKeys := map[string]bool{}
+	for k, n := range count {
+		if n == len(sets) {
+			res = append(res, byKey[k])
+			resKeys[k] = true
+		}
+	}
+	prod := []clause{nil}
+	ok := true
+	for _, fs := range sets {
+		var dist []clause
+		for _, cl := range fs {
+			if count[clauseKey(cl)] != len(sets) {
+				dist = append(dist, cl)
+			}
+		}
+		if len(dist) == 0 {
+			ok = false // this alternative adds nothing beyond the common part: no disjunction holds
+			break
+		}
+		var next []clause
+		for _, pcl := range prod {
+			for _, d := range dist {
+				n := append(append(clause(nil), pcl...), d...)
+				next = append(next, n)
+			}
+		}
+		if len(next) > 96 {
+			next = next[:96]
+		}
+		prod = next
+	}
+	if ok {
+		for _, cl := range prod {
+			cl = dedupClause(cl)
+			if tautology(cl) || len(cl) > 6 {
+				continue
+			}
+			k := clauseKey(cl)
+			if !resKeys[k] {
+				resKeys[k] = true
+				res = append(res, cl)
+			}
+		}
+	}
+	return res
 }
 
 func dedupClause(cl clause) clause {
@@ -805,4 +846,27 @@ func sameValue(a, b ssa.Value) bool {
 		}
 	}
 	return false
+}
+
+// returnsOf lists the return instructions of fn, ignoring the synthetic recover block.
+func returnsOf(fn *ssa.Function) []*ssa.Return {
+	var out []*ssa.Return
+	for _, b := range fn.Blocks {
+		if b == fn.Recover {
+			continue
+		}
+		if ret, ok := b.Instrs[len(b.Instrs)-1].(*ssa.Return); ok {
+			out = append(out, ret)
+		}
+	}
+	return out
+}
+
+// asReturn: the block's terminating return, ignoring the synthetic recover block.
+func asReturn(b *ssa.BasicBlock) (*ssa.Return, bool) {
+	if b == b.Parent().Recover || len(b.Instrs) == 0 {
+		return nil, false
+	}
+	r, ok := b.Instrs[len(b.Instrs)-1].(*ssa.Return)
+	return r, ok
 }
